@@ -168,6 +168,50 @@ fn fnames(name: &'static str) -> &'static [String; 6] {
     })
 }
 
+/// Call-order workload: the same shift/rotate issued back to back in the other operand width, and twice in a row
+/// from different flag words -- whatever one call leaves behind (a memo, a reused buffer) must not reach the next.
+/// Every call is judged by the same oracle as the sweeps.
+fn call_order_plane(rep: &Report) {
+    let jobs: Vec<(usize, u32)> = (0..7).flat_map(|o| (0..256u32).map(move |n| (o, n))).collect();
+    par_for(jobs.len(), 4, |j| {
+        let (o, n) = jobs[j];
+        let (n8, f8, op) = SH8[o];
+        let (n16, f16, _) = SH16[o];
+        let mut vm = VM::new();
+        let mut agg = FailAgg::new();
+        let mut loc = Local::default();
+        for a in 0..256u32 {
+            for cin in 0..2u16 {
+                let fin = 0x0811u16 & !CF | cin;
+                // byte then word, word then byte, then each once more from the other flag base
+                for order in 0..2 {
+                    for k in 0..2 {
+                        let byte_now = (order + k) % 2 == 0;
+                        vm.arch.flag = fin;
+                        if byte_now {
+                            one_shift(&mut vm, &mut agg, true, n8, 8, op, a, n, fin, &|vm| f8(vm, a as u8, n as u8) as u32);
+                        } else {
+                            one_shift(&mut vm, &mut agg, true, n16, 16, op, a, n, fin, &|vm| f16(vm, a as u16, n as u16) as u32);
+                        }
+                        loc.evals += 1;
+                    }
+                }
+                // the identical call twice in a row, the second from a flag word that differs outside CF
+                let fin2 = (0xF7EEu16 & !CF) | cin;
+                vm.arch.flag = fin;
+                one_shift(&mut vm, &mut agg, true, n16, 16, op, a | 0x8000, n, fin, &|vm| f16(vm, (a | 0x8000) as u16, n as u16) as u32);
+                vm.arch.flag = fin2;
+                one_shift(&mut vm, &mut agg, true, n16, 16, op, a | 0x8000, n, fin2, &|vm| f16(vm, (a | 0x8000) as u16, n as u16) as u32);
+                loc.evals += 2;
+            }
+        }
+        loc.distinct.insert(hnum(&[0xCA11, o as u64, n as u64]));
+        agg.flush(rep);
+        loc.flush(rep);
+    });
+    rep.count("fn-plane call-order cases (7 ops x 256 counts x 256 values x cin x alternating widths / repeated calls)", 7 * 256 * 256 * 2 * 6);
+}
+
 fn core_fn_plane(rep: &Report) {
     // logic bytes exhaustive
     let jobs: Vec<(usize, u32)> = (0..4).flat_map(|o| (0..256u32).map(move |a| (o, a))).collect();
@@ -518,6 +562,7 @@ fn source_plane(rep: &Report, per_form: usize, core: bool, seed: u64) {
 
 pub fn run(rep: &Report) {
     core_fn_plane(rep);
+    call_order_plane(rep);
     ins_plane(rep, 24, true, 0xC02);
     source_plane(rep, 8, true, 0xC02);
     let thorough = rep.thorough();
